@@ -344,6 +344,20 @@ func init() {
 
 func (in *Interp) assertion(id string, c *Term) {
 	r := in.run
+	if r.cfg.Concrete != nil {
+		// translator validation: record the verdict and go on, as the native run does
+		r.mu.Lock()
+		switch {
+		case c == True:
+		case c == False:
+			r.res.ConcreteFailed = append(r.res.ConcreteFailed, id)
+		default:
+			r.res.ConcreteNonConcrete = append(r.res.ConcreteNonConcrete, id)
+		}
+		r.mu.Unlock()
+		r.count(id, func(o *Obligation) { o.Instances++ })
+		return
+	}
 	if c == True {
 		r.count(id, func(o *Obligation) { o.Instances++; o.Trivial++ })
 		return
